@@ -43,6 +43,11 @@ func main() {
 		os.Exit(runChild(os.Args[2], os.Args[3], seed, shard, nshards, os.Args[7]))
 	case "replay":
 		os.Exit(runReplay(os.Args[2]))
+	case "c17dump":
+		// verifmon c17dump <tier> <seed> <case>: prints the per-epoch hashes of one reproducibility scenario
+		seed, _ := strconv.ParseInt(os.Args[3], 10, 64)
+		idx, _ := strconv.Atoi(os.Args[4])
+		os.Exit(c17Dump(os.Args[2], seed, idx))
 	default:
 		os.Exit(runParent(os.Args[1], os.Args[2]))
 	}
